@@ -186,7 +186,8 @@ def run(spec, ctx):
             if sid == SID and not sok:
                 sid = SID ^ 0x8000
             iv = MAJ if vok else rng.choice((MAJ + 1, 0, 0xFF, MAJ - 1, MINOR))
-            mid = HANDLERS[hk] if hk != "unknown" else rng.choice((0, 0x000F, 0x0014, 0x8010, 0xFFFF, M_BYTES | 0x8000))
+            mid = HANDLERS[hk] if hk != "unknown" else rng.choice((0, 0x000F, 0x0014, 0x8010, 0xFFFF, M_BYTES | 0x8000,
+                                                                    0x8100, 0x8000))  # incl. the SD / magic-cookie method ids
             m = dict(sid=sid, mid=mid, cid=cid, sess=sess, iv=iv, mt=mt, rc=rc, payload=payload)
             addr = rng.choice((("192.0.2.9", 40000), ("2001:db8::9", 40001, 0, 0)))
             check_datagram(svc, calls, [m], mc, addr, ctx, dict(msgs=[m], multicast=mc, addr=addr))
